@@ -1,7 +1,8 @@
 /-
 C01 — GraphPigeonholePrinciple(G, functional, onto) on an arbitrary bipartite graph object.
 -/
-import Lemmas.FamBip
+import Lemmas.FamGraphInv
+import Lemmas.FamPigeon
 import CnfgenModel.Fam.Php
 namespace Cnfgen.C01
 open Cnfgen Cnfgen.Fam
@@ -94,5 +95,88 @@ theorem gphp_cnf_spec (B : BipG) (hg : GoodBip B) (f o : Bool) (α : Assign) :
 theorem gphp_opb_spec (B : BipG) (hg : GoodBip B) (f o : Bool) (α : Assign) :
     (gphp B f o).toOPB.holds α = true ↔ GPHPSpec B f o (gphpRel B α) := by
   rw [Formula.toOPB_holds α _ (gphp_wf B hg f o)]; exact gphp_spec B hg f o α
+
+/-- the hypothesis of the theorems above holds for every graph object the real class can
+represent: `BipartiteGraph(l, r)` followed by any sequence of successful `add_edge` calls -/
+theorem goodBip_ofEdges (l r : Nat) (es : List (Nat × Nat)) (B : BipG)
+    (h : BipG.ofEdges l r es = .ok B) : GoodBip B := Fam.goodBip_ofEdges l r es B h
+
+theorem gphp_spec_ofEdges (l r : Nat) (es : List (Nat × Nat)) (B : BipG)
+    (h : BipG.ofEdges l r es = .ok B) (f o : Bool) (α : Assign) :
+    (gphp B f o).holds α = true ↔ GPHPSpec B f o (gphpRel B α) :=
+  gphp_spec B (goodBip_ofEdges l r es B h) f o α
+
+/-- non-vacuity: a graph with an isolated right vertex, edges inserted out of order -/
+example : ∃ B, BipG.ofEdges 2 3 [(2, 1), (1, 2), (1, 1), (2, 1)] = .ok B ∧ B.rnbrs 1 = [1, 2] ∧
+    B.lnbrs 3 = [] := ⟨_, rfl, rfl, rfl⟩
+
+/-- the specification only looks at the edges of the graph -/
+theorem GPHPSpec_congr {B : BipG} (hg : GoodBip B) {f o : Bool} {R R' : Nat → Nat → Prop}
+    (h : ∀ u v, 1 ≤ u → u ≤ B.l → v ∈ B.rnbrs u → (R u v ↔ R' u v)) :
+    GPHPSpec B f o R → GPHPSpec B f o R' := by
+  have hl : ∀ v, 1 ≤ v → v ≤ B.r → ∀ u ∈ B.lnbrs v, (R u v ↔ R' u v) := by
+    intro v hv1 hv2 u hu
+    have := (hg.adj u v).2 ⟨hv1, hv2, hu⟩
+    exact h u v this.1 this.2.1 this.2.2
+  rintro ⟨h1, h2, h3, h4⟩
+  refine ⟨?_, ?_, ?_, ?_⟩
+  · intro u a b
+    obtain ⟨v, c, d⟩ := h1 u a b
+    exact ⟨v, c, (h u v a b c).1 d⟩
+  · intro v a b u c u' c' e e'
+    exact h2 v a b u c u' c' ((hl v a b u c).2 e) ((hl v a b u' c').2 e')
+  · intro hf u a b v c v' c' e e'
+    exact h3 hf u a b v c v' c' ((h u v a b c).2 e) ((h u v' a b c').2 e')
+  · intro ho v a b
+    obtain ⟨u, c, d⟩ := h4 ho v a b
+    exact ⟨u, c, (hl v a b u c).1 d⟩
+
+/-- every edge set with the documented properties is described by a satisfying assignment -/
+theorem gphp_realises (B : BipG) (hg : GoodBip B) (f o : Bool) (R : Nat → Nat → Bool)
+    (h : GPHPSpec B f o (fun u v => R u v = true)) :
+    (gphp B f o).holds ((SMap.mk B 1).assignOf R) = true := by
+  rw [gphp_spec B hg]
+  refine GPHPSpec_congr hg ?_ h
+  intro u v h1 h2 hv
+  have := (SMap.mk B 1).assignOf_var R h1 h2 hv
+  simp only [SMap.var] at this
+  simp only [gphpRel, this]
+
+/-- the docstring's "satisfiable if and only if the graph has a matching of size |L|":
+a choice `g` of a neighbour for every left vertex, injective on the left side -/
+theorem gphp_sat_iff_matching (B : BipG) (hg : GoodBip B) (f : Bool) :
+    (∃ α, (gphp B f false).holds α = true) ↔
+      ∃ g : Nat → Nat, (∀ u, 1 ≤ u → u ≤ B.l → g u ∈ B.rnbrs u) ∧
+        (∀ u, 1 ≤ u → u ≤ B.l → ∀ u', 1 ≤ u' → u' ≤ B.l → g u = g u' → u = u') := by
+  constructor
+  · rintro ⟨α, hα⟩
+    obtain ⟨h1, h2, _, _⟩ := (gphp_spec B hg f false α).1 hα
+    have hex : ∀ u, ∃ v, (1 ≤ u ∧ u ≤ B.l) → v ∈ B.rnbrs u ∧ gphpRel B α u v := by
+      intro u
+      by_cases hu : 1 ≤ u ∧ u ≤ B.l
+      · obtain ⟨v, hv⟩ := h1 u hu.1 hu.2
+        exact ⟨v, fun _ => hv⟩
+      · exact ⟨0, fun h => absurd h hu⟩
+    refine ⟨fun u => Classical.choose (hex u), ?_, ?_⟩
+    · intro u a b; exact (Classical.choose_spec (hex u) ⟨a, b⟩).1
+    · intro u a b u' a' b' e
+      have s := Classical.choose_spec (hex u) ⟨a, b⟩
+      have s' := Classical.choose_spec (hex u') ⟨a', b'⟩
+      simp only [] at e
+      have hv := (hg.adj u _).1 ⟨a, b, s.1⟩
+      have hv' := (hg.adj u' _).1 ⟨a', b', s'.1⟩
+      rw [← e] at hv' s'
+      exact h2 _ hv.1 hv.2.1 u hv.2.2 u' hv'.2.2 s.2 s'.2
+  · rintro ⟨g, hg1, hg2⟩
+    refine ⟨_, gphp_realises B hg f false (fun u v => decide (v = g u)) ⟨?_, ?_, ?_, by simp⟩⟩
+    · intro u a b; exact ⟨g u, hg1 u a b, by simp⟩
+    · intro v a b u hu u' hu' e e'
+      have c := (hg.adj u v).2 ⟨a, b, hu⟩
+      have c' := (hg.adj u' v).2 ⟨a, b, hu'⟩
+      simp only [decide_eq_true_eq] at e e'
+      exact hg2 u c.1 c.2.1 u' c'.1 c'.2.1 (e.symm.trans e')
+    · intro _ u _ _ v _ v' _ e e'
+      simp only [decide_eq_true_eq] at e e'
+      exact e.trans e'.symm
 
 end Cnfgen.C01
